@@ -12,7 +12,7 @@ from fractions import Fraction as F
 import numpy as np
 
 from harness.fieldp import red, P, Unrepresentable
-from harness.proxies import Tape, Boom, TapeMismatch, BOOMS
+from harness.proxies import Tape, Boom, TapeMismatch, BOOMS, carries_boom
 
 warnings.filterwarnings("ignore")
 
@@ -528,7 +528,10 @@ def run_scenario(sc, tape_mode="log", script=None, keep_raw=False, provider=None
             except TapeMismatch:
                 raise
             except Exception as e:      # the library (or a callback precondition) raised
-                outcome, exc_name = "err", type(e).__name__ + ": " + str(e)[:200]
+                if carries_boom(e):
+                    outcome, exc_name = "exc", "Boom"
+                else:
+                    outcome, exc_name = "err", type(e).__name__ + ": " + str(e)[:200]
             post = proj.state()
             rows_after, ys_after = proj.storage_rows()
             n_eff = n_over if n_over not in (None, "manual") else sc.n_inner
